@@ -16,7 +16,7 @@ Program ops (a flat list; every `with_*` / `engine_begin` / `sm_begin` block is 
     s_commit / s_rollback                                     (a `connect` without `close` is never closed: garbage collected)
 
 Events (one dict per event, `e` = kind) - the alphabet of TraceAsyncCancel.tla:
-    new       prog, pool (cold | empty | idle), mode (cancel | timeout), post (driver calls whose effect precedes their suspension)
+    new       prog, pool (cold | empty | idle | idle2), mode (cancel | timeout), post (driver calls whose effect precedes their suspension)
     opstart / opend   i, op             the program starts / finished op i (opend only on normal completion)
     call / ret        k, id             a driver coroutine was invoked on DBAPI connection id / returned normally
     drv       op (open exec commit rollback close stop), id, sql, arg      the EFFECT reached the real sqlite3 connection
@@ -125,7 +125,9 @@ def programs(maxops, session=True):
 
 # ------------------------------------------------------------------------------------------ one run
 class Case:
-    def __init__(self, workdir, prog, pool="idle", mode="cancel", post=(), pool_size=1, max_overflow=0):
+    def __init__(self, workdir, prog, pool="idle", mode="cancel", post=(), pool_size=None, max_overflow=0):
+        if pool_size is None:
+            pool_size = 2 if pool == "idle2" else 1
         import sqlalchemy as sa
         from sqlalchemy import event
         from sqlalchemy.dialects.sqlite.aiosqlite import AsyncAdapt_aiosqlite_dbapi
@@ -298,7 +300,9 @@ class Case:
 
     async def _warm(self):
         async with self.engine.connect():
-            pass
+            if self.poolkind == "idle2":          # a second, untouched connection idles in the pool next to the program's
+                async with self.engine.connect():
+                    pass
         if self.poolkind == "empty":
             await self.engine.dispose()
 
@@ -405,7 +409,8 @@ class Case:
                 if m > limit:
                     break
             self.logging = True
-            init = self.engine.dialect.default_isolation_level is not None      # dialect.initialize() completed on some connection
+            # dialect.initialize() completed on some connection (the attribute does not even exist before)
+            init = getattr(self.engine.dialect, "default_isolation_level", None) is not None
             if ft.done() and not ft.cancelled() and ft.exception() is None:
                 intx, rows, cid = ft.result()
                 self.log("fresh", ok=True, intx=bool(intx), rows=rows, id=cid, init=init, err="")
@@ -468,7 +473,7 @@ def normalise(ev):
         elif k == "settle":
             d["o"] = {"co": e["co"], "idle": e["idle"], "open": e["open"], "dirty": e["dirty"], "locked": e["locked"], "rows": e["rows"]}
         elif k == "fresh":
-            d["o"] = {"ok": e["ok"], "intx": e["intx"], "init": e["init"], "rows": e["rows"]}
+            d["o"] = {"ok": e["ok"], "intx": e["intx"], "init": e["init"], "rows": e["rows"], "id": e["id"]}
         elif k == "end":
             d["o"] = {"co": e["co"], "locked": e["locked"], "rows": e["rows"]}
         elif k == "new":
